@@ -16,7 +16,8 @@ open RawPanelVerif RawPanelVerif.Bytes RawPanelVerif.Strip RawPanelVerif.MsgOut
 /-- `%d` of a `uint32` -/
 def utoa (n : Nat) : Bytes := digitsOf n
 
-/-! ## capability table (shared with the decoder model) -/
+/-! ## capability table (shared with the decoder model; equal to the tables regenerated from the Go source:
+`C03.caps_table_tie`) -/
 
 inductive Cap
   | ascii | binary | jsonFeedback | jsonInbound | jsonOutbound | system | rawADCValues | burninProfile
@@ -42,6 +43,23 @@ def Cap.name : Cap → Bytes
   | .calibration => asc "Calibration"
   | .processors => asc "Processors"
   | .networkSettings => asc "NetworkSettings"
+
+/-- the Go field of `RawPanelSupport` a capability stands for (tied, with `Cap.all` and `Cap.name`, to the tables regenerated
+from converterFunctions.go by `C03.caps_table_tie`) -/
+def Cap.goField : Cap → String
+  | .ascii => "ASCII"
+  | .binary => "Binary"
+  | .jsonFeedback => "ASCII_JSONfeedback"
+  | .jsonInbound => "ASCII_Inbound"
+  | .jsonOutbound => "ASCII_Outbound"
+  | .system => "System"
+  | .rawADCValues => "RawADCValues"
+  | .burninProfile => "BurninProfile"
+  | .envHealth => "EnvHealth"
+  | .registers => "Registers"
+  | .calibration => "Calibration"
+  | .processors => "Processors"
+  | .networkSettings => "NetworkSettings"
 
 def _root_.RawPanelVerif.MsgOut.Support.get (s : Support) : Cap → Bool
   | .ascii => s.ascii
@@ -222,6 +240,20 @@ def encMsgRaw (o : OutOracle) (m : OutMsg) : List Bytes :=
 
 /-- `OutboundMessagesToRawPanelASCIIstrings` -/
 def encOut (o : OutOracle) (ms : List OutMsg) : List Bytes := (ms.flatMap (encMsgRaw o)).map singleLine
+
+/-! ## the C binding (rawpanel-lib-c/main.go `OutboundMessageToRawPanelASCIIstring`) -/
+
+/-- what a C caller reads from the `char*` that `C.CString(s)` returns: the bytes before the first NUL -/
+def cRead : Bytes → Bytes
+  | [] => []
+  | b :: r => if b = 0 then [] else b :: cRead r
+
+/-- `C.CString(strings.Join(strs, "\n"))` (`C.CString("")` when there is no string) as the C caller sees it -/
+def cBinding (o : OutOracle) (m : OutMsg) : Bytes := cRead (join 10 (encOut o [m]))
+
+/-- the lines a C caller obtains by splitting what it read at LF (none for the empty string) -/
+def cBindingLines (o : OutOracle) (m : OutMsg) : List Bytes :=
+  if cBinding o m = [] then [] else splitOn 10 (cBinding o m)
 
 /-! ## the same function with explicit pointer dereferences (for the totality theorem) -/
 
